@@ -148,7 +148,7 @@ def _fail(tag: str, detail: str = ""):
     raise PropertyViolation("[[%s]] %s" % (tag, detail))
 
 
-def _setup(listener: int, recycle: int):
+def _setup(listener: int, recycle: int, idle: int):
     registry.register("fake27", "props.C27", "Dialect27")
     srv = Server27()
     eng = create_engine("fake27://", module=fakedb.FakeDBAPI(srv), pool_size=5, pool_recycle=recycle)
@@ -165,11 +165,10 @@ def _setup(listener: int, recycle: int):
             elif listener == L_NOPOOL:
                 ctx.invalidate_pool_on_disconnect = False
 
-    a = eng.connect()
-    b = eng.connect()
+    older = [eng.connect() for _ in range(idle)]  # opened before the connection in use, idle in the pool
     conn = eng.connect()
-    a.close()
-    b.close()
+    for c in older:
+        c.close()
     return eng, srv, conn, seen
 
 
@@ -217,7 +216,7 @@ def _statically_possible(cops, faults, flip: bool) -> bool:
     return True
 
 
-def _h_disc(n: int, alpha: int, listener: int, recycle: int, nf: int, op0: int, ops, fcode) -> bool:
+def _h_disc(n: int, alpha: int, listener: int, recycle: int, idle: int, nf: int, op0: int, ops, fcode) -> bool:
     """``ops[i]`` indexes ``ALPHABETS[alpha]`` (the first operation is fixed by the slice if ``op0 >= 0``);
     ``fcode`` encodes which ``nf`` operations suffer a DBAPI error, at which of their DBAPI calls, and whether
     the error looks like a disconnect to the dialect (see decode_faults)."""
@@ -238,17 +237,17 @@ def _h_disc(n: int, alpha: int, listener: int, recycle: int, nf: int, op0: int, 
     assume(_statically_possible(cops, faults, listener == L_FLIP))
     # from here on everything is concrete: the real SQLAlchemy code runs with the tracer paused
     try:
-        return native(_run_concrete, listener, recycle, cops, faults)
+        return native(_run_concrete, listener, recycle, idle, cops, faults)
     except Assume:
         assume(False)  # a precondition that depends on what SQLAlchemy did (see _run)
 
 
 def _make(n: int):
-    def h(alpha, listener, recycle, nf, op0, ops, fcode):
-        return _h_disc(n, alpha, listener, recycle, nf, op0, ops, fcode)
+    def h(alpha, listener, recycle, idle, nf, op0, ops, fcode):
+        return _h_disc(n, alpha, listener, recycle, idle, nf, op0, ops, fcode)
 
     h.__name__ = h.__qualname__ = "h_disc_%d" % n
-    h.__annotations__ = {"alpha": int, "listener": int, "recycle": int, "nf": int, "op0": int,
+    h.__annotations__ = {"alpha": int, "listener": int, "recycle": int, "idle": int, "nf": int, "op0": int,
                          "ops": Tuple[(int,) * n], "fcode": int, "return": bool}
     return h
 
@@ -258,24 +257,24 @@ H_DISC = {n: _make(n) for n in range(1, MAXN + 1)}
 globals().update({h.__name__: h for h in H_DISC.values()})
 
 
-def _run_concrete(listener, recycle, ops, faults) -> bool:
+def _run_concrete(listener, recycle, idle, ops, faults) -> bool:
     saved_time = pool_base.time
     pool_base.time = _Clock()
     try:
         with warnings.catch_warnings():
             warnings.simplefilter("ignore")
-            return _run(listener, recycle, ops, faults)
+            return _run(listener, recycle, idle, ops, faults)
     finally:
         pool_base.time = saved_time
 
 
-def _run(listener, recycle, ops, faults) -> bool:
+def _run(listener, recycle, idle, ops, faults) -> bool:
     n = len(ops)
-    eng, srv, conn, seen = _setup(listener, recycle)
-    if [c.id for c in srv.connections] != [0, 1, 2] or eng.pool.checkedin() != 2:
+    eng, srv, conn, seen = _setup(listener, recycle, idle)
+    if [c.id for c in srv.connections] != list(range(idle + 1)) or eng.pool.checkedin() != idle:
         _fail("setup")
     flip = listener == L_FLIP
-    cfg = LNAMES[listener] + (":pool_recycle" if recycle > -1 else "")
+    cfg = LNAMES[listener] + (":pool_recycle" if recycle > -1 else "") + (":empty-pool" if idle == 0 else "")
     # model ------------------------------------------------------------------------------------
     in_txn = False          # the Connection has a transaction object
     nsp = 0                 # savepoints the model knows to be open
@@ -285,7 +284,6 @@ def _run(listener, recycle, ops, faults) -> bool:
     disconnected = False    # a connection in use was invalidated (effective disconnect or Connection.invalidate())
     pool_invalidated = False  # ... by a disconnect that also invalidates the pooled connections
     detached = False        # the DBAPI connection in use was detached from the pool
-    ever_detached = False
     detached_raws = []
     deferred = None         # a minor finding reported only if nothing else fails in this history
     sps = []                # NestedTransaction handles of the current transaction
@@ -471,7 +469,7 @@ def _run(listener, recycle, ops, faults) -> bool:
                 pass  # rolling back the savepoint of a lost transaction: raising or not is unspecified
             elif op == DETACH and blocked != "disconnect":
                 if err is None:
-                    detached = ever_detached = True  # not a database operation: allowed on a valid connection
+                    detached = True  # not a database operation: allowed on a valid connection
                     detached_raws.append(raw0)
             else:
                 if not isinstance(err, sa_exc.InvalidRequestError):
@@ -485,7 +483,7 @@ def _run(listener, recycle, ops, faults) -> bool:
                 _fail("%s:committed-rows-changed" % what)
         elif vague:
             if op == DETACH and err is None:
-                detached = ever_detached = True
+                detached = True
                 detached_raws.append(raw0)
             if op == ROLLBACK and err is None:
                 vague = False
@@ -535,7 +533,7 @@ def _run(listener, recycle, ops, faults) -> bool:
                     sps.pop()
                     pending.pop()
                 elif op == DETACH:
-                    detached = ever_detached = True
+                    detached = True
                     detached_raws.append(raw0)
                     if conn.invalidated or conn.connection.dbapi_connection is not raw0 or raw0.closed:
                         _fail("%s:detach-changes-dbapi-connection" % what)
@@ -553,9 +551,9 @@ def _run(listener, recycle, ops, faults) -> bool:
         if not disconnected:
             if conn.invalidated:
                 _fail("%s:invalidated-without-disconnect" % what)
-            if len(srv.connections) != 3 or [c.closed for c in srv.connections] != [False, False, False]:
+            if len(srv.connections) != idle + 1 or any(c.closed for c in srv.connections):
                 _fail("%s:pool-touched-without-disconnect" % what, repr([(c.id, c.closed) for c in srv.connections]))
-            if eng.pool.checkedin() != (3 if detached else 2):
+            if eng.pool.checkedin() != idle + (1 if detached else 0):
                 _fail("%s:pool-touched-without-disconnect" % what, eng.pool.status())
     # ---- epilogue: rollback (always allowed), then the Connection must be usable again
     tail = "after-" + last
@@ -593,14 +591,14 @@ def _run(listener, recycle, ops, faults) -> bool:
                 _fail("%s:stale-dbapi-connection-left-open" % tail, repr([(s.id, s.closed) for s in stale]))
             # Connection.invalidate() / invalidate_pool_on_disconnect=False: "only the current connection that is
             # the subject of the error will actually be invalidated" -- the two idle connections stay in use
-            idle = [c for c in srv.connections[:2] if c not in detached_raws]  # unless the user detached them later
-            if any(c.closed for c in idle) or not all(c in got for c in idle):
-                _fail("%s:idle-connections-invalidated" % tail, repr([(c.id, c.closed) for c in idle]))
+            older = [c for c in srv.connections[:idle] if c not in detached_raws]  # unless the user detached them later
+            if any(c.closed for c in older) or not all(c in got for c in older):
+                _fail("%s:idle-connections-invalidated" % tail, repr([(c.id, c.closed) for c in older]))
     else:
         # pool contents identical: the same DBAPI connections, nothing opened, nothing closed (a detached
         # connection is closed by Connection.close() and replaced by one new connection)
-        expect = [0, 1, 3] if ever_detached else [0, 1, 2]
-        if sorted(g.id for g in got) != expect or len(srv.connections) != max(expect) + 1:
+        old = [c for c in srv.connections[:idle + 1] if c not in detached_raws]
+        if any(c.closed or c not in got for c in old) or len(srv.connections) != (idle + 1) + (3 - len(old)):
             _fail("%s:pool-contents-changed" % tail, repr([g.id for g in got]))
     for c in outs:
         c.close()
@@ -636,7 +634,8 @@ META = {
                   "two faults": "histories of 3 over ALPHABETS[2] (with Connection.invalidate()), without listener", "no fault": "histories <=3",
                   "fault": "a DBAPI error at the 1st/2nd/3rd DBAPI call of an operation (connect when reconnecting, cursor(), statement); "
                            "kinds: disconnect, looks-like-disconnect-but-alive, ordinary",
-                  "listeners": LNAMES, "pool": "QueuePool(5) holding 2 idle older connections + the one in use"},
+                  "listeners": LNAMES, "pool": "QueuePool(5) holding 2 idle older connections + the one in use (two-fault histories: no idle connection, "
+                  "so that every reconnect has to open a DBAPI connection)"},
         "thorough": {"one fault": "histories <=4 for every listener mode x pool_recycle in {-1, %d}; 5 over ALPHABETS[1] without listener" % RECYCLE_LARGE,
                      "two faults": "histories <=4 over ALPHABETS[2], without listener and flipping listener, both pool_recycle values; 3 over ALPHABETS[1]",
                      "three faults": "histories of 3 over ALPHABETS[2] without listener / flipping listener, of 4 without listener",
@@ -663,9 +662,9 @@ META = {
 }
 
 
-def _slices(n: int, alpha: int, listener: int, recycle: int, nf: int, split: bool):
+def _slices(n: int, alpha: int, listener: int, recycle: int, nf: int, split: bool, idle: int = 2):
     """One slice, or one per first operation."""
-    base = dict(alpha=alpha, listener=listener, recycle=recycle, nf=nf)
+    base = dict(alpha=alpha, listener=listener, recycle=recycle, idle=idle, nf=nf)
     if not split:
         return [dict(base, op0=-1)]
     return [dict(base, op0=j) for j, o in enumerate(ALPHABETS[alpha]) if o not in (SP_COMMIT, SP_ROLLBACK)]
@@ -687,7 +686,7 @@ def harnesses(tier: str) -> List[Harness]:
                 per_n[4] += _slices(4, 0, listener, recycle, 1, True)
     if q:
         per_n[4] += _slices(4, 1, L_NONE, RECYCLE_LARGE, 1, True)
-        per_n[3] += _slices(3, 2, L_NONE, -1, 2, True)
+        per_n[3] += _slices(3, 2, L_NONE, -1, 2, True, idle=0)
     else:
         per_n[5] += _slices(5, 1, L_NONE, -1, 1, True)
         for listener in (L_NONE, L_FLIP):
@@ -696,6 +695,7 @@ def harnesses(tier: str) -> List[Harness]:
                 per_n[3] += _slices(3, 2, listener, recycle, 2, True)
                 per_n[4] += _slices(4, 2, listener, recycle, 2, True)
             per_n[3] += _slices(3, 1, listener, -1, 2, True)
+            per_n[3] += _slices(3, 2, listener, -1, 2, True, idle=0)
             per_n[3] += _slices(3, 2, listener, -1, 3, True)
         per_n[4] += _slices(4, 2, L_NONE, -1, 3, True)
     return [Harness("disconnect_history_n%d" % n, H_DISC[n], sl, budget_s=150 if q else 800) for n, sl in per_n.items() if sl]
@@ -715,7 +715,8 @@ def classify(hname, args, rep):
     hist = [OPNAMES[ALPHABETS[args["alpha"]][o]] for o in args["ops"]]
     faults = decode_faults(n, args["nf"], args["fcode"])
     fdesc = ["op %d %s call %s" % (p, CALLNAMES[c], "looks like disconnect" if l else "ordinary error") for p, (c, l) in sorted(faults.items())]
-    desc = "history %s, faults %s, %s, pool_recycle=%s" % (hist, fdesc or "none", LNAMES[args["listener"]], args["recycle"])
+    desc = "history %s, faults %s, %s, pool_recycle=%s, %d idle older connections" % (
+        hist, fdesc or "none", LNAMES[args["listener"]], args["recycle"], args["idle"])
     key = "C27:" + (tag or "history:%s" % "/".join(hist))
     return key, "%s: %s  [key %s]" % (desc, exc_s[:300], key)
 
